@@ -3,15 +3,19 @@
 # run the check against it, expect a VIOLATION line for m_* and none for h_* (harmless refactorings).
 # The diffs are relative to the tree WITH hooks/C11.patch (some context lines are hook lines).  Never touches /repo.
 #
-# Results on 2026-09-26 (quick tier, seed 1, hook present):
-#   m_metaupdate_bypasses_batch  VIOLATION C11:kill:partial-commit  [new, b, space, tick 4, BackSpace] kill #30 (batch write): tick present, entry missing
+# Results on 2026-09-26 (quick tier, seed 1, /repo HEAD b5cda48+ with hooks/C11.patch):
+#   m_metaupdate_bypasses_batch  VIOLATION C11:unit:tick-without-entry + C11:kill:partial-commit  [new, b, space, tick 4, BackSpace] kill #30 (batch write): tick on disk, entry missing
 #   m_commit_before_updates      VIOLATION C11:kill:partial-commit  [new, j, space] kill #31: tick written, entry not yet
-#   m_abort_keeps_batch          VIOLATION C11:kill:not-a-commit-prefix (+ C11:damage): an aborted commit resurfaces in the next batch
-#   m_revert_ignores_window      VIOLATION C11:kill:partial-commit  [new, b, space, tick 4, BackSpace, o, space, Return] kill #29: a commit that should have been flushed was dropped
+#   m_abort_keeps_batch          VIOLATION C11:kill:not-a-commit-prefix (+ C11:damage, C11:trace:fetch, C11:trace:durable): an aborted commit resurfaces in the next batch
+#   m_revert_ignores_window      VIOLATION C11:kill:partial-commit  [new, b, space, tick 4, BackSpace, o, space, Return] kill #29: a commit that had to be flushed was dropped
 #   m_destructor_drops_pending   VIOLATION C11:kill:partial-commit  (corpus 03) commits pending at session destruction are lost by Close
-#   m_entry_before_begin         VIOLATION C11:kill:partial-commit  [new, b, space, tick 4, BackSpace] kill #31: the tick of a commit is its own unit
+#   m_entry_before_begin         VIOLATION C11:unit:tick-without-entry + C11:kill:partial-commit  [new, b, space, tick 4, BackSpace] kill #31: the tick of a commit is its own unit
+#   m_fetch_ignores_pending      VIOLATION C11:trace:fetch no-failing-input-found (reads bypass the pending batch: model/code correspondence, atomicity unaffected)
 #   h_begin_without_clear        no alarm
 #   h_refactor_commit_pending    no alarm
+# Without the hook (plain /repo + mutant): m_metaupdate_bypasses_batch -> C11:unit:tick-without-entry,
+#   m_commit_before_updates -> C11:kill:not-a-commit-prefix; mutants that only drop or take back whole commits
+#   (m_revert_ignores_window, m_destructor_drops_pending) need the hook.
 set -u
 HERE="$(cd "$(dirname "${BASH_SOURCE[0]}")" && pwd)"
 ROOT="$(cd "$HERE/../.." && pwd)"
